@@ -66,8 +66,8 @@ func (b *ByteBuffer) Reserve(n int) {
 	existing := cap(b.data) - b.wi
 	if n > existing {
 		need := n - existing
-		b.data = b.data[:cap(b.data)]
-		b.data = append(b.data, make([]byte, need)...)
+		// Reslice only once the new memory exists: if the allocation panics the buffer is left untouched.
+		b.data = append(b.data[:cap(b.data)], make([]byte, need)...)
 	}
 	b.data = b.data[:b.wi]
 }
